@@ -20,7 +20,7 @@ from pathlib import Path
 from typing import Any, Callable, Dict, List, Optional
 
 ROOT = Path(__file__).resolve().parents[2]
-EVIDENCE = ROOT / "evidence"
+EVIDENCE = Path(os.environ.get("VERIF_EVIDENCE_DIR") or ROOT / "evidence")  # selftest redirects this
 REPLAYS = EVIDENCE / "replays"
 FINDINGS_FILE = ROOT / "known_findings.json"
 
